@@ -20,8 +20,8 @@ func (r *lockRoles) slotLoadVL(v ssa.Value) bool {
 	if !ok || len(ld.Call.Args) == 0 {
 		return false
 	}
-	switch ir.CalleeFullName(ld) {
-	case "(*sync/atomic.Value).Load", "(*sync/atomic.Value).Swap":
+	switch slotMethodVV(ld) {
+	case "Load", "Swap":
 		_, isSlot := fieldAddrOf(ld.Call.Args[0], r.timerF)
 		return isSlot
 	}
@@ -48,7 +48,7 @@ func (r *lockRoles) cancelsSlotTimerVL(in ssa.Instruction) bool {
 		return false
 	}
 	for _, o := range ir.Origins(call.Call.Value) {
-		if r.slotAssertVL(o) != nil {
+		if r.slotAssertVL(o) != nil || r.derefOfSlotLoadVV(o) {
 			return true
 		}
 	}
